@@ -259,6 +259,12 @@ theorem Inv.pos {r : Region V} (h : Inv r) {x : Int × V} (hx : x ∈ r) : 0 < i
   have := h.posSizes x hx
   simp only [isize]; omega
 
+/-- the BTreeMap order is implied by the two cell conditions -/
+theorem sorted_of_noOverlap {r : Region V} (hn : NoOverlap r) (hp : PosSizes r) : BMap.Sorted r :=
+  List.Pairwise.imp_of_mem (fun {a b} ha _ hab => by
+    have := hp a ha
+    simp only [isize] at hab; omega) hn
+
 theorem inv_of_sorted {r : Region V} (hs : BMap.Sorted r)
     (hd : ∀ x ∈ r, ∀ y ∈ r, x.1 < y.1 → x.1 + isize x.2 ≤ y.1)
     (hp : PosSizes r) (ht : NoTopStored r) : Inv r :=
